@@ -9,6 +9,7 @@ from sa.core import run_property, SRC, REPO
 # the file list comes from a normal run; the table itself is built from the raw (un-normalised) sources below
 
 files = set()
+os.environ["SA_REGENERATING_INVENTORY"] = "1"
 for i in range(1, 21):
     ctx, _ = run_property(f"C{i:02d}", "quick")
     files |= set(ctx.files)
